@@ -2,6 +2,7 @@ SPECIFICATION CSpec
 CONSTANTS
   MaxDepth = 0
   MaxRows = 0
+  MaxRows2 = 1
   NVals = 1
   WithEmpty = FALSE
   DevNoDedup = FALSE
